@@ -47,13 +47,59 @@ fn ok(r: Option<String>) -> String {
     }
 }
 
+/// Read a text consisting of CDATA sections back (independent of the model).
+fn cdata_contents(mut t: &str) -> Option<String> {
+    let mut out = String::new();
+    if t.is_empty() {
+        return None;
+    }
+    while !t.is_empty() {
+        t = t.strip_prefix("<![CDATA[")?;
+        let end = t.find("]]>")?;
+        out.push_str(&t[..end]);
+        t = &t[end + 3..];
+    }
+    Some(out)
+}
+
+/// The character-level clauses of C01 / C14 evaluated on the implementation.
+pub fn oracle(sink: &mut Sink, s: &str) {
+    let rep = [format!("string {}", enc(s))];
+    let a = h::serialize_attribute(s);
+    if h::parse_attribute(&a, 0).ok().as_deref() != Some(s) {
+        sink.fail("C01", "C01:attribute-value-does-not-survive-escaping", &format!("serialize_attribute gives {:?}", a), &rep);
+    }
+    if a.contains('<') || a.contains('"') {
+        sink.fail("C01", "C01:raw-lt-or-quote-in-attribute-value", &format!("serialize_attribute gives {:?}", a), &rep);
+    }
+    let t0 = h::serialize_text(s, false);
+    if h::parse_text(&t0, 0).ok().as_deref() != Some(s) {
+        sink.fail("C01", "C01:text-does-not-survive-escaping", &format!("serialize_text gives {:?}", t0), &rep);
+    }
+    if t0.contains('<') || t0.contains("]]>") {
+        sink.fail("C01", "C01:raw-lt-or-cdata-end-in-text", &format!("serialize_text gives {:?}", t0), &rep);
+    }
+    let t1 = h::serialize_text(s, true);
+    if h::parse_text(&t1, 0).ok().as_deref() != Some(s) {
+        sink.fail("C14", "C14:unescaped-gt-text-does-not-survive", &format!("serialize_text(unescaped_gt) gives {:?}", t1), &rep);
+    }
+    if t1.contains('<') || t1.contains("]]>") {
+        sink.fail("C14", "C14:unescaped-gt-output-contains-cdata-end-or-lt", &format!("serialize_text(unescaped_gt) gives {:?}", t1), &rep);
+    }
+    let c = h::serialize_cdata(s);
+    if cdata_contents(&c).as_deref() != Some(s) {
+        sink.fail("C14", "C14:cdata-sections-do-not-spell-the-content", &format!("serialize_cdata gives {:?}", c), &rep);
+    }
+}
+
 pub const SER_OPS: &[&str] = &["ser_text0", "ser_text1", "ser_cdata", "ser_attr", "ser_text_html", "ser_attr_html"];
 
 pub fn corpus(sink: &mut Sink) {
-    for s in ["", "\t", "\n", "\r", "\r\n", "x\ty\nz\rw", "]]>", "]]]>", "]>]]>>", "a]]", "]]]]>>", "&<>'\"", "\u{a0}", "\u{1f600}"] {
+    for s in ["", "\t", "\n", "\r", "\r\n", "x\ty\nz\rw", "]]>", "]]]>", "]>]]>>", "a]]", "]]]]>>", "]]]>", "a[b[c[0]]]>0", "&<>'\"", "\u{a0}", "\u{1f600}"] {
         for op in SER_OPS {
             run_case(sink, op, 0, s);
         }
+        oracle(sink, s);
         run_case(sink, "parse_text", 0, s);
         run_case(sink, "parse_attr", 7, s);
     }
@@ -81,6 +127,7 @@ pub fn run(seed: u64, count: usize, tier: &str, sink: &mut Sink) {
                 let s = if rng.chance(1, 2) { any_string(&mut rng, 12) } else { bracket_string(&mut rng, 12) };
                 let op = *rng.pick(SER_OPS);
                 run_case(sink, op, 0, &s);
+                oracle(sink, &s);
             }
             3..=7 => {
                 let mal = rng.chance(1, 2);
@@ -113,6 +160,9 @@ pub fn exhaustive(alphabet: &[char], maxlen: usize, ops: &[&str], sink: &mut Sin
         let s: String = idx.iter().map(|&i| alphabet[i]).collect();
         for op in ops {
             run_case(sink, op, 0, &s);
+        }
+        if ops.iter().any(|o| o.starts_with("ser_")) {
+            oracle(sink, &s);
         }
         // next
         let mut i = idx.len();
